@@ -239,6 +239,9 @@ pub fn run(family: &str, cases_path: &str, events_path: &str, gen_dir: &str, sha
                 if let Some(d) = calls_defs(case) {
                     o.insert("defs".into(), d);
                 }
+                if let Some(ns) = case.get("names").and_then(|n| n.as_array()) {
+                    o.insert("names_str".into(), json!(ns.iter().map(abs::tokens_str).collect::<Vec<_>>()));
+                }
                 if let Some(ps) = o.get_mut("probes").and_then(|p| p.as_array_mut()) {
                     for p in ps.iter_mut() {
                         if let Some(po) = p.as_object_mut() {
